@@ -419,7 +419,7 @@ def probe_impl(t, m):
         elif df.kind == "named" and any(ign for _, _, ign in ms):
             ps = ["self.%s = %s;" % (fn, poison(ft, m)) for fn, ft, ign in ms if ign and poison(ft, m)]
             body.append("fn poison(&mut self) -> usize { %s %d }" % (" ".join(ps), len(ps)))
-            cs = ["self.%s == Default::default()" % fn for fn, ft, ign in ms if ign]
+            cs = ["is_default(&self.%s)" % fn for fn, ft, ign in ms if ign]
             body.append("fn ignored_default(&self) -> bool { %s }" % " && ".join(cs))
     return "impl Probe for %s { %s }" % (ty, " ".join(body))
 
